@@ -100,6 +100,76 @@ def naming_one(run, GeckoConfigFileProtocolHandler, plat, name, c, l):
             run.violation(f"C18:files:{plat}:mismatch", f"FILES naming of ({name},{c},{l}) decodes to {got}, module names need {(plat, c, l)}", {"got": got})
 
 
+def shard_connect(sh, combos, seed):
+    """The anchored lookup itself: a real GeckoAsyncSpa connects (real handshake, virtual network) to
+    the simulator reporting each (platform, config, log) naming, one connection after the other in
+    ONE process, and must end up with exactly the tables of the modules of that name."""
+    import asyncio
+
+    from vlib import tables as T
+    from vlib.aworld import ScenarioHang, SimHost, Watchdog, World
+    from vlib.common import rng
+    from vlib.rig import SpaRig
+
+    class Snap:
+        def __init__(self, name, c, l):
+            self.packtype, self.config_version, self.log_version = name, c, l
+            self.bytes = bytes(1024)
+            self.intouch_EN, self.intouch_CO = (88, 15, 0), (89, 11, 0)
+            self.name, self.timestamp = "synthetic", "2020-01-01 00:00:00"
+
+    for plat, name, c, l in combos:
+        r = rng("C18connect", seed, plat, c, l)
+        w = World(r, "B", max_iter=3_000_000, wall_cap=300)
+        try:
+            rig = SpaRig.__new__(SpaRig)
+            rig.w, rig.tap, rig.events, rig.spa, rig.taskman = w, None, [], None, None
+            try:
+                rig.sim = SimHost(w.net, snapshot=Snap(name, c, l))
+            except Exception as e:
+                sh.inconc(f"simulator could not be set up for {plat} {c}/{l}: {e!r}")
+                continue
+
+            async def main():
+                return await rig.connect()
+
+            sh.evaluations += 1
+            ok, err = False, None
+            try:
+                ok = w.run(main())
+            except (ScenarioHang, Watchdog) as e:
+                sh.inconc(f"{type(e).__name__} while connecting to {plat} {c}/{l}")
+                continue
+            except Exception as e:
+                err = describe_exc(e)
+            spa = rig.spa
+            wit = {"platform": plat, "reported": [name, c, l], "events": [e[0].name for e in rig.events][-5:], "exc": err}
+            looked_up = spa is not None and all(getattr(spa, a, None) is not None for a in ("pack_class", "config_class", "log_class"))
+            if not looked_up:
+                # the lookup itself did not deliver the three table objects
+                sh.violation(f"C18:connect:{plat}:lookup-failed", f"a spa reporting {name} C{c} S{l} (modules {plat}, {plat}-cfg-{c}, {plat}-log-{l} are shipped): the connection did not get its tables ({err['type'] + ': ' + err['msg'] if err else wit['events']})", wit)
+                continue
+            if not ok:
+                # tables found, a later step of the connection failed (e.g. platforms whose tables lack
+                # items the client assumes - C11's recorded findings): counted, the lookup is still judged
+                sh.count("connections_not_completed_after_the_lookup")
+                sh.see("platforms_not_completing", plat)
+            mods = (type(spa.pack_class).__module__, type(spa.config_class).__module__, type(spa.log_class).__module__)
+            want = (f"geckolib.driver.packs.{plat}", f"geckolib.driver.packs.{plat}-cfg-{c}", f"geckolib.driver.packs.{plat}-log-{l}")
+            if mods != want:
+                sh.violation(f"C18:connect:{plat}:wrong-modules", f"a spa reporting {name} C{c} S{l} was given the tables of {mods}, the naming needs {want}", wit)
+                continue
+            fresh_c = set(T.import_stem(f"{plat}-cfg-{c}").GeckoConfigStruct(spa.struct).accessors)
+            fresh_l = set(T.import_stem(f"{plat}-log-{l}").GeckoLogStruct(spa.struct).accessors)
+            if set(spa.struct.accessors) != fresh_c | fresh_l or (spa.config_version, spa.log_version) != (c, l):
+                sh.violation(f"C18:connect:{plat}:wrong-items", f"connected to {name} C{c} S{l}: the structure's items are not those of {plat}-cfg-{c} + {plat}-log-{l}", wit)
+            else:
+                sh.count("connections_with_the_named_tables")
+                sh.see("platforms_connected", plat)
+        finally:
+            w.close()
+
+
 def compare_pin(run: Run, lay, pin):
     fields = ("cls", "pos", "type", "bitpos", "items", "size", "maxitems", "rw", "pub_pos", "pub_length", "pub_format", "pub_bitpos", "pub_bitmask", "pub_items", "pub_rw", "pub_tag")
     for stem, prec in pin.items():
@@ -177,6 +247,17 @@ def main(tier, seed):
             structural(run, stem, rec)
         naming(run, lay)
         compare_pin(run, lay, pin)
+        # the anchored lookup through a real connection; platforms interleaved so that consecutive
+        # connections of one process differ in platform but often share version numbers
+        from vlib.common import NCPU, rng, run_shards
+
+        allc = sorted(tables.combos(), key=lambda x: (x[1], x[2], x[0]))
+        if tier == "quick":
+            rr = rng("C18pick", seed)
+            allc = sorted(rr.sample(allc, 160), key=lambda x: (x[1], x[2], x[0]))
+        args = [(p_, lay[p_]["table"].get("name"), c_, l_) for p_, c_, l_ in allc]
+        res = run_shards("checks.c18", "shard_connect", [{"combos": args[i::NCPU], "seed": seed} for i in range(NCPU) if args[i::NCPU]], timeout=3000)
+        run.absorb(res)
         if tier == "thorough":
             rederive_pin(run, pin)
         run.count("modules", len(lay))
@@ -186,6 +267,7 @@ def main(tier, seed):
             run.sample({"module": "inyt-log-1", "item": k, "record": {a: b for a, b in ex[k].items() if not a.startswith("pub_")}})
         run.need(run.counters.get("items", 0) >= 20000, "fewer than 20000 items enumerated")
         run.need(run.counters.get("pinned_items_compared", 0) >= 20000, "fewer than 20000 pinned items compared")
+        run.need(run.counters.get("connections_with_the_named_tables", 0) >= 100, "too few real connections through the module lookup")
     return run.finish(
         rule="every item of every table module in the working tree is enumerated (finite space, complete); a case is one (module,item) pair checked against the structural rules and, for pinned modules, field-by-field against the pinned layout; distinct = distinct (module,item) pairs",
         assumptions=["pins/layout-236b7b1.json.gz is the layout of the audited commit (re-derived from git in the thorough tier)", "declarations captured by wrapping GeckoStructAccessor.__init__ from the harness"],
